@@ -511,7 +511,11 @@ struct AbbreviationDisplay<S>(S);
 impl<S: AsRef<str>> core::fmt::Display for AbbreviationDisplay<S> {
     fn fmt(&self, f: &mut core::fmt::Formatter) -> core::fmt::Result {
         let s = self.0.as_ref();
-        if s.chars().any(|ch| ch == '+' || ch == '-') {
+        // An unquoted abbreviation may only contain ASCII letters. Anything
+        // else that a quoted abbreviation permits (digits, `+` and `-`)
+        // requires quotes, otherwise the result either can't be parsed or,
+        // worse, a trailing digit gets parsed as part of the offset.
+        if s.chars().any(|ch| !ch.is_ascii_alphabetic()) {
             write!(f, "<{s}>")
         } else {
             write!(f, "{s}")
